@@ -50,7 +50,7 @@ namespace cnl {
             overflow_tag OverflowTag = _impl::tag_of_t<overflow_integer<>>, integer Narrowest = int,
             class Input = int, CNL_IMPL_CONSTANT_VALUE_TYPE Value>
     [[nodiscard]] constexpr auto make_static_number(constant<Value> const&) -> static_number<
-            _impl::used_digits(Value) - trailing_bits(Value), trailing_bits(Value), RoundingTag,
+            digits_v<constant<Value>> - trailing_bits(Value), trailing_bits(Value), RoundingTag,
             OverflowTag, Narrowest>
     {
         return constant<Value>{};
